@@ -121,14 +121,15 @@ theorem keeps_prepareStream (w : World) (s : BState) (n : Name) (objsDks : List 
 theorem keeps_dropMonitors (w : World) (s : BState) : Keeps w s (dropMonitors s).st := by keeps_basic
 
 theorem keeps_closeRunTail (w : World) (s : BState) (e r : String) : Keeps w s (closeRunTail s e r).st := by
+  have aux : ∀ (s1 : BState), Keeps w s s1 → Keeps w s { resetCp s1 with runOpen := false } := by
+    intro s1 h
+    exact Keeps.trans w s s1 _ h (Keeps.trans w s1 (resetCp s1) _ (keeps_resetCp w s1) (by keeps_basic))
   unfold closeRunTail
   split
   · exact Keeps.refl w s
   · simp only [Res.ok_st]
     split
-    · refine Keeps.trans w _ (resetCp _) _ ?_ (by keeps_basic)
-      refine Keeps.trans w _ _ _ ?_ (keeps_resetCp w _)
-      keeps_basic
+    · exact aux _ (by keeps_basic)
     · keeps_basic
 
 theorem keeps_closeRun (w : World) (s : BState) (e r : Option String) : Keeps w s (closeRun s e r).st := by
